@@ -126,7 +126,8 @@ def draw_scenario(ch: Choices, cancel: bool = False, max_tracers: int = 3) -> Di
         # the library's own LoggingTracer configured next to the recording tracers (None = not configured, else its index)
         'lib_tracer': ch.choice([None, None, 0, 1, 9], 'tracers.lib'),
         # what the caller hands over as trace context: a namespace, or an object that accepts no new attributes
-        'ctx_kind': ch.choice(['namespace', 'namespace', 'object', 'slots'], 'tracers.ctx_kind'),
+        'ctx_kind': ch.choice(['namespace', 'namespace', 'object', 'slots', 'callable'], 'tracers.ctx_kind'),
+        'tracer_instance_hooks': ch.flag(1, 3, 'tracers.instance_hooks'),
         'hooks': ch.flag(1, 4, 'client.hooks'),
     }
     if cancel and ch.flag(1, 2, 'cancel'):
@@ -180,17 +181,34 @@ class _SlotsCtx:
         self.mark = 'caller-ctx'
 
 
+class _CallableCtx:
+    """A caller-supplied trace context that happens to be callable (a mock, a factory object)."""
+
+    def __init__(self) -> None:
+        self.mark = 'caller-ctx'
+
+    def __call__(self, *args: Any, **kwargs: Any) -> Any:
+        return SimpleNamespace(mark='made-by-calling-the-context')
+
+
 class TracerTrouble(Exception):
     """Raised by a misbehaving tracer."""
 
 
 # --- recording tracer ----------------------------------------------------------------------------------------------
 class RecTracer(pjrpc.client.Tracer):
-    def __init__(self, world: World, idx: int, node: str, raises_on_end: bool = False):
+    def __init__(self, world: World, idx: int, node: str, raises_on_end: bool = False, instance_hooks: bool = False):
         self.world = world
         self.idx = idx
         self.node = node
         self.raises_on_end = raises_on_end   # a misbehaving tracer (used by the twin comparison only)
+        if instance_hooks:
+            # hooks installed per instance (partials), as tracers configured at run time do
+            import functools
+            cls = type(self)
+            self.on_request_begin = functools.partial(cls.on_request_begin, self)  # type: ignore[method-assign]
+            self.on_request_end = functools.partial(cls.on_request_end, self)      # type: ignore[method-assign]
+            self.on_error = functools.partial(cls.on_error, self)                  # type: ignore[method-assign]
 
     def on_request_begin(self, trace_context: Any, request: Any) -> None:
         w = self.world
@@ -249,6 +267,9 @@ def _net_script(scn: Dict[str, Any]) -> List[Dict[str, Any]]:
         elif o == 'lost_conn':
             p['exc'] = 'conn'
             p['exc_when'] = 'after'
+        elif o == 'blank':
+            p['resp'] = ('body_for_notification', step.get('blank', '\n')) if scn['kind'] in ('notify', 'batch_notify') \
+                else ('replace', step.get('blank', '\n'))
         elif o == 'garbage':
             p['resp'] = ('not_json', '<<<garbage')
         elif o == 'invalid':
@@ -289,7 +310,8 @@ def make_op(st: Stack, scn: Dict[str, Any], toks: List[str], obs: 'Obs') -> Any:
     ctx: Any = None
     if scn['trace_ctx']:
         kind = scn.get('ctx_kind', 'namespace')
-        ctx = SimpleNamespace(mark='caller-ctx') if kind == 'namespace' else object() if kind == 'object' else _SlotsCtx()
+        ctx = SimpleNamespace(mark='caller-ctx') if kind == 'namespace' else object() if kind == 'object' else \
+            _CallableCtx() if kind == 'callable' else _SlotsCtx()
     obs.trace_ctx = ctx
     kw: Dict[str, Any] = {}
     if ctx is not None:
@@ -336,7 +358,8 @@ def run_scenario(w: World, scn: Dict[str, Any], client_async: bool, suffix: str 
     obs = Obs()
     node = 'client' + suffix
     if reuse is None:
-        tracers = [RecTracer(w, i, node, raises_on_end=(scn.get('tracer_raises_on_end') == i))
+        tracers = [RecTracer(w, i, node, raises_on_end=(scn.get('tracer_raises_on_end') == i),
+                             instance_hooks=bool(scn.get('tracer_instance_hooks')) and i % 2 == 0)
                    for i in range(scn['tracers'])]
         if scn.get('lib_tracer') is not None:
             tracers = list(tracers)
